@@ -148,10 +148,13 @@ def compVals (ts : Arr) (fn t0 fac : Rat) (buf filt : Arr) : Option Arr :=
   match ts with
   | ta :: tb :: _ =>
     let dt := tb - ta
-    if dt ≤ 0 then none else
+    -- `dt = 0`: `b/dt` is NaN and `int(NaN)` raises; a DECREASING grid (`dt < 0`) is evaluated normally
+    -- as long as no buffer makes a point count negative
+    if dt = 0 then none else
     let nb := nbuf (buf.getD 0 0) dt
     let na := nbuf (buf.getD 1 0) dt
-    if nb < 0 ∨ na < 0 then none else
+    -- (`linspace(…, n_after+1)[1:]`: a trailing count of −1 still gives an empty extension)
+    if nb < 0 ∨ na < -1 then none else
     let nb := nb.toNat
     let na := na.toNat
     let tl := ts.getLastD 0
@@ -415,7 +418,10 @@ def step (st : St) : Op → St × Reply
     | none => (st, .bad)
   | .div k q =>
     match st.objs k with
-    | some s => if q = 0 then (st, .bad) else scaleSig st s (1 / q)
+    | some s =>
+      -- division by zero: a function-backed signal divides its Python factors (`ZeroDivisionError`);
+      -- a sampled one yields IEEE inf/nan, which ℚ cannot express: outside the model
+      if q = 0 then (if s.isFunc then (st, .raise) else (st, .bad)) else scaleSig st s (1 / q)
     | none => (st, .bad)
   | .imul k q =>
     match st.objs k with
@@ -423,7 +429,7 @@ def step (st : St) : Op → St × Reply
     | none => (st, .bad)
   | .idiv k q =>
     match st.objs k with
-    | some s => if q = 0 then (st, .bad) else iscaleSig st k s (1 / q)
+    | some s => if q = 0 then (if s.isFunc then (st, .raise) else (st, .bad)) else iscaleSig st k s (1 / q)
     | none => (st, .bad)
   | .withTimes k t =>
     match st.objs k with
